@@ -75,25 +75,38 @@ def msgEntries (dl : Str) (id : Str) (k : Str) : V → List Entry
   | .str t => if k ≠ s "jr:noAppErrorString" && !t.isEmpty && hasBracketedTag t then [⟨dl, id, s "long", .str t⟩] else []
   | .none => []
 
+/-- the bind-message entries of `get_translations` (survey_element.py:372-404) -/
+def msgsOf (dl : Str) (e : Elem) : List Entry :=
+  match e.bind with
+  | .dict b => if (V.dict b).falsy then [] else
+      msgKeys.flatMap fun k => msgEntries dl (e.path ++ s ":" ++ k) k (b.get k)
+  | _ => []
+
+def wrapDl (dl : Str) (v : V) : V := .dict (.cons dl v .nil)
+
+/-- the label as `get_translations` files it: a plain label next to media is wrapped under the default language -/
+def labelV (dl : Str) (e : Elem) : V :=
+  if needsItextRef e && !isDict e.label && !e.label.falsy then wrapDl dl e.label else e.label
+
+/-- guidance hints always use itext: a plain one is wrapped under the default language -/
+def guidanceV (dl : Str) (e : Elem) : V :=
+  match e.guidance with
+  | .str g => if g.isEmpty then e.guidance else wrapDl dl e.guidance
+  | g => g
+
+/-- a plain hint next to a guidance hint is wrapped under the default language -/
+def hintV (dl : Str) (e : Elem) : V :=
+  match e.hint, e.guidance with
+  | .str h, .str g => if !h.isEmpty && !g.isEmpty then wrapDl dl e.hint else e.hint
+  | .str h, .dict g => if !h.isEmpty && !(Kvs.items g).isEmpty then wrapDl dl e.hint else e.hint
+  | h, _ => h
+
 /-- `get_translations` (survey_element.py:370-459) followed by the id/form choice of `_setup_translations`
 (survey.py:846-866): guidance hints go under `<path>:hint` with form `guidance`. -/
 def getTranslations (dl : Str) (e : Elem) : List Entry :=
-  let msgs := match e.bind with
-    | .dict b => if (V.dict b).falsy then [] else
-        msgKeys.flatMap fun k => msgEntries dl (e.path ++ s ":" ++ k) k (b.get k)
-    | _ => []
-  let wrap (v : V) : V := .dict (.cons dl v .nil)
-  let label := if needsItextRef e && !isDict e.label && !e.label.falsy then wrap e.label else e.label
-  let guidance := match e.guidance with
-    | .str g => if g.isEmpty then e.guidance else wrap e.guidance
-    | g => g
-  let hint := match e.hint, e.guidance with
-    | .str h, .str g => if !h.isEmpty && !g.isEmpty then wrap e.hint else e.hint
-    | .str h, .dict g => if !h.isEmpty && !(Kvs.items g).isEmpty then wrap e.hint else e.hint
-    | h, _ => h
-  msgs ++ dictEntries (e.path ++ s ":label") (s "long") label
-       ++ dictEntries (e.path ++ s ":hint") (s "long") hint
-       ++ dictEntries (e.path ++ s ":hint") (s "guidance") guidance
+  msgsOf dl e ++ dictEntries (e.path ++ s ":label") (s "long") (labelV dl e)
+       ++ dictEntries (e.path ++ s ":hint") (s "long") (hintV dl e)
+       ++ dictEntries (e.path ++ s ":hint") (s "guidance") (guidanceV dl e)
 
 /-- `_setup_media._set_up_media_translations` (survey.py:913-955); unsupported media types raise -/
 def mediaEntries (dl : Str) (e : Elem) : List Entry :=
